@@ -94,3 +94,19 @@ Proof.
   rewrite (ssort_order_independent _ _ (Permutation_map (fun k => match aget k (vd_regions d) with Some rg => rg_id rg | None => k end) Pr)).
   reflexivity.
 Qed.
+
+(* ---- the writer issues one Write with the whole document ---- *)
+Definition vtt_writes (d : vdoc) (so ro : list str) : res (list str) :=
+  match write_vtt d so ro with Ok b => Ok [b] | Err k => Err k | Panic p => Panic p end.
+Definition write_vtt_to (d : vdoc) (so ro : list str) (dst : dest) : res nat :=
+  match vtt_writes d so ro with Ok ws => run_writes ws dst 0 | Err k => Err k | Panic p => Panic p end.
+
+Theorem write_vtt_fault d so ro doc k : write_vtt d so ro = Ok doc -> (k < length doc)%nat ->
+  write_vtt_to d so ro (fail_at k) = Err EIO.
+Proof.
+  intros H Hk. unfold write_vtt_to, vtt_writes. rewrite H. apply writes_fault. unfold total. cbn [concat]. rewrite app_nil_r. exact Hk.
+Qed.
+Theorem write_vtt_complete d so ro doc : write_vtt d so ro = Ok doc -> write_vtt_to d so ro ok_dest = Ok (length doc).
+Proof.
+  intros H. unfold write_vtt_to, vtt_writes. rewrite H, writes_complete. unfold total. cbn [concat]. rewrite app_nil_r. reflexivity.
+Qed.
